@@ -148,7 +148,7 @@ def check_selection(ctx, name, res, kint_of_index, on_grid_coarse, Ncoarse, wit)
 def case(ctx, rng, idx, state):
     from wannierberri.w90files.utility import get_mp_grid, grid_from_kpoints
 
-    maxpts = 6000 if ctx.thorough else 2500
+    maxpts = 6000 if ctx.thorough else 4000
     N = gen_mesh(rng, maxpts)
     Na = np.array(N)
     ndir = int(np.count_nonzero(Na > 1))
@@ -184,9 +184,9 @@ def case(ctx, rng, idx, state):
     elif variant == "removed":
         if nmesh < 2:
             raise harness.Skip("single-point mesh cannot lose a point")
-        nrem = int(rng.integers(1, max(2, min(nmesh - 1, 6)) + 1)) if rng.random() < 0.7 else 1
+        nrem = int(rng.integers(1, min(nmesh - 1, 6) + 1)) if rng.random() < 0.7 else 1
         rem = set(int(i) for i in rng.choice(nmesh, nrem, replace=False))
-        keep = np.array([i for i in range(nmesh) if i not in rem])
+        keep = np.array([i for i in range(nmesh) if i not in rem], dtype=int)
         kint = allint[keep]
         if rng.random() < 0.5:   # duplicates among the remaining points must not hide the hole
             kint = np.vstack([kint, kint[rng.integers(len(kint), size=int(rng.integers(1, nrem + 2)))]])
@@ -279,8 +279,8 @@ def case(ctx, rng, idx, state):
 if __name__ == "__main__":
     harness.main(
         PROP, "exploration", case, setup_fn=setup,
-        tiers=dict(quick=dict(cases=1600, shards=8, time=150), thorough=dict(cases=12000, shards=16, time=900)),
-        rule="Gamma-centred meshes with 1-3 non-trivial directions, sizes 2..100 (incl. 96, 97, 99, 100; <= 2500 points "
+        tiers=dict(quick=dict(cases=3200, shards=8, time=150), thorough=dict(cases=12000, shards=16, time=900)),
+        rule="Gamma-centred meshes with 1-3 non-trivial directions, sizes 2..100 (incl. 96, 97, 99, 100; <= 4000 points "
              "quick / 6000 thorough), shuffled, as exact floats / 8-digit rounded / shifted by lattice vectors and reduced "
              "to [0,1) (un-reduced shifted lists only for get_mp_grid); variants: complete, with duplicates in mixed "
              "representations, with 1-6 mesh points removed (all copies), superset = finer mesh + off-grid points; "
